@@ -212,13 +212,13 @@ theorem specLoop_cv (env : Env) (rest : Toks) (c v : Bool) (st : SpecSt) (n : Na
     rw [specLoop]; simp
 
 theorem nestedNs_stop (sym : Sym) (nested : List Str) (rest : Toks)
-    (h : ∀ t ts, rest = t :: ts → t.typ ≠ .NAMESPACE) : nestedNs sym nested rest = .ok (sym, nested, rest) := by
+    (h : ∀ t ts, rest = t :: ts → t.typ ≠ .SCOPE) : nestedNs sym nested rest = .ok (sym, nested, rest) := by
   cases rest with
   | nil => unfold nestedNs; rfl
   | cons t ts => unfold nestedNs; simp [h t ts rfl]
 
 theorem SpecStop.notNs {env : Env} {rest : Toks} (h : SpecStop env rest) :
-    ∀ t ts, rest = t :: ts → t.typ ≠ .NAMESPACE ∧ t.typ ≠ .LT := by
+    ∀ t ts, rest = t :: ts → t.typ ≠ .SCOPE ∧ t.typ ≠ .LT := by
   intro t ts e; subst e
   rcases h with h | ⟨h1, _⟩
   · cases ht : t.typ <;> simp [ht, stopKind] at h ⊢
@@ -799,7 +799,7 @@ theorem paramList_print (env : Env) : ∀ (ps : List Decl) (p : Decl) (m : Nat) 
     obtain ⟨hwf, hrt⟩ := h p (by simp)
     obtain ⟨hwfq, _⟩ := h q (by simp)
     obtain ⟨t, ts, e, h1, _⟩ := declToks_head env p hwf
-    obtain ⟨t2, ts2, e2, _, h2⟩ := declToks_head env q hwfq
+    obtain ⟨t2, ts2, e2, h2r, h2⟩ := declToks_head env q hwfq
     simp only [paramsTailToks, List.length_append, List.length_cons, List.append_assoc, List.cons_append,
       List.nil_append] at hm ⊢
     obtain ⟨m', rfl⟩ : ∃ m', m = m' + 2 := ⟨m - 2, by omega⟩
@@ -815,7 +815,10 @@ theorem paramList_print (env : Env) : ∀ (ps : List Decl) (p : Decl) (m : Nat) 
     · rename_i hh; simp at hh; exact absurd hh h1
     · rw [e2] at hd hi ⊢
       simp [tk] at hd hi
-      simp [hd, have?, tk, h2, hi]
+      simp [hd, have?, tk, h2, peekTyp]
+      split
+      · rename_i hh; exact absurd (by simpa using hh) h2r
+      · simp [hi]
 
 theorem roundtrip_all (env : Env) (hv : EnvVoid env) : ∀ d, WF env d → RT env d := by
   intro d
